@@ -4,38 +4,59 @@
 (* size of the search space: setup, restart when the space exceeds its      *)
 (* maximum, product update, small eigenproblem, convergence test, correction*)
 (* and extension.  Parameters are adjusted exactly as initialize() does.    *)
+(*                                                                          *)
+(* The object lives through several calls: compute() and                    *)
+(* compute_with_guess() are two public entry points into the same loop.     *)
+(* The status must describe the call that just returned (maxit >= 1):       *)
+(* Successful exactly when THIS call's convergence test passed.             *)
+(* V_StatusPerCall = FALSE is the design in which only compute() resets the *)
+(* status and the loop no longer assigns NotConverging itself (it is set    *)
+(* after the loop only if the status is still NotComputed): a               *)
+(* compute_with_guess() that does not converge after a successful call      *)
+(* keeps reporting Successful (negative control).                           *)
 (***************************************************************************)
 EXTENDS DavidsonOps
-CONSTANTS NMax, MaxIt
-VARIABLES n, nev, init, maxs, corr, size, niter, info, pc
-vars == <<n, nev, init, maxs, corr, size, niter, info, pc>>
+CONSTANTS NMax, MaxIt, MaxCalls, V_StatusPerCall
+VARIABLES n, nev, init, maxs, corr, size, niter, info, pc, calls, conv
+vars == <<n, nev, init, maxs, corr, size, niter, info, pc, calls, conv>>
 Init ==
     /\ n \in 3 .. NMax /\ nev \in 1 .. NMax /\ nev <= n - 1
     \* domain of C15: initial + correction <= n; at least nev initial vectors; the maximal space leaves room for one correction
     /\ \E i0 \in 1 .. NMax + 2, m0 \in 1 .. NMax + 2 :
           /\ i0 >= nev /\ i0 + nev <= n /\ m0 >= i0 + nev
           /\ LET a == Adj(n, nev, i0, m0) IN init = a.init /\ maxs = a.maxs /\ corr = a.corr
-    /\ size = 0 /\ niter = 0 /\ info = "NotComputed" /\ pc = "setup"
+    /\ size = 0 /\ niter = 0 /\ info = "NotComputed" /\ pc = "idle" /\ calls = 0 /\ conv = FALSE
 
 Par == [n |-> n, nev |-> nev, init |-> init, maxs |-> maxs, corr |-> corr]
-Setup == pc = "setup" /\ size' = init /\ pc' = "top" /\ UNCHANGED <<n, nev, init, maxs, corr, niter, info>>
+\* a public call: compute() builds the initial space itself, compute_with_guess() takes the caller's; both enter the same loop
+Call(entry) ==
+    /\ pc = "idle" /\ calls < MaxCalls /\ calls' = calls + 1 /\ conv' = FALSE /\ niter' = 0 /\ pc' = "setup"
+    /\ info' = IF V_StatusPerCall \/ entry = "compute" THEN "NotComputed" ELSE info
+    /\ UNCHANGED <<n, nev, init, maxs, corr, size>>
+Setup == pc = "setup" /\ size' = init /\ pc' = "top" /\ UNCHANGED <<n, nev, init, maxs, corr, niter, info, calls, conv>>
 Top ==
     /\ pc = "top" /\ niter < MaxIt
     /\ size' = D_TopSize(size, Par)                        \* restart keeps `init` Ritz vectors
-    /\ pc' = "small" /\ UNCHANGED <<n, nev, init, maxs, corr, niter, info>>
-Exhausted == pc = "top" /\ niter >= MaxIt /\ pc' = "done" /\ UNCHANGED <<n, nev, init, maxs, corr, size, niter, info>>
+    /\ pc' = "small" /\ UNCHANGED <<n, nev, init, maxs, corr, niter, info, calls, conv>>
+Exhausted == pc = "top" /\ niter >= MaxIt /\ pc' = "idle" /\ UNCHANGED <<n, nev, init, maxs, corr, size, niter, calls, conv>>
+             /\ info' = IF ~V_StatusPerCall /\ info = "NotComputed" THEN "NotConverging" ELSE info
 Small ==
     /\ pc = "small"
-    /\ \/ pc' = "done" /\ info' = "Successful" /\ UNCHANGED <<size, niter>>
-       \/ niter = MaxIt - 1 /\ pc' = "done" /\ info' = "NotConverging" /\ UNCHANGED <<size, niter>>
-       \/ niter < MaxIt - 1 /\ pc' = "top" /\ size' = D_Extend(size, Par) /\ niter' = niter + 1 /\ UNCHANGED info
-    /\ UNCHANGED <<n, nev, init, maxs, corr>>
-Next == Setup \/ Top \/ Exhausted \/ Small
+    /\ \/ pc' = "idle" /\ info' = "Successful" /\ conv' = TRUE /\ UNCHANGED <<size, niter>>
+       \/ /\ niter = MaxIt - 1 /\ pc' = "idle" /\ UNCHANGED <<size, niter, conv>>
+          /\ info' = IF V_StatusPerCall THEN "NotConverging" ELSE (IF info = "NotComputed" THEN "NotConverging" ELSE info)
+       \/ niter < MaxIt - 1 /\ pc' = "top" /\ size' = D_Extend(size, Par) /\ niter' = niter + 1 /\ UNCHANGED <<info, conv>>
+    /\ UNCHANGED <<n, nev, init, maxs, corr, calls>>
+Next == Call("compute") \/ Call("guess") \/ Setup \/ Top \/ Exhausted \/ Small
 Spec == Init /\ [][Next]_vars
 
 \* the small eigenproblem needs at least nev Ritz pairs and a basis that fits into R^n
 SpaceHoldsNev == pc = "small" => P_SpaceHoldsNev(size, Par)
 SpaceFits == pc = "small" => P_SpaceFits(size, Par)
 IterBounded == niter <= MaxIt
-StatusDocumented == pc = "done" /\ MaxIt > 0 => info \in {"Successful", "NotConverging"}
+Returned == pc = "idle" /\ calls > 0
+StatusDocumented == Returned /\ MaxIt > 0 => info \in {"Successful", "NotConverging"}
+\* C15: "when the Davidson solver reports Successful, each of the nev returned pairs satisfies ..." - the status describes the call that
+\* just returned, also when the object was used before and when the caller supplies the initial space
+StatusDescribesThisCall == Returned /\ MaxIt > 0 => ((info = "Successful") = conv)
 =============================================================================
